@@ -383,6 +383,40 @@ func classifyC06(r *rig, res *scnResult, fs []nodeFinal, best *nodeFinal, t *tre
 		}
 	}
 	if s.Engine == "legacy" {
+		if ok, why := overlappingRequestsEndShort(r, res, best, t); ok {
+			return "c06-overlapping-requests-end-sync-short", why
+		}
+	}
+	if s.Engine == "legacy" && r.sm != nil {
+		// the SYNC PEER itself — honest, reachable, answering — announced a block by inv that the table still lacks, and
+		// nothing was requested from it afterwards (the manager always listens to its sync peer)
+		snap := r.sm.VerifSnapshot()
+		for _, f := range fs {
+			lp := r.lpeers[f.ID]
+			if !f.Honest || !f.Reachable || lp == nil || !snap.HasSyncPeer || lp.p.ID() != snap.SyncPeerID {
+				continue
+			}
+			for k, e := range f.Hist {
+				if !(e.Sent && e.Kind == "inv" && len(e.Idx) > 0) {
+					continue
+				}
+				if _, have := t.by[r.tree.disp[e.Idx[len(e.Idx)-1]]]; have {
+					continue
+				}
+				asked := false
+				for _, e2 := range f.Hist[k+1:] {
+					if !e2.Sent && e2.Kind == "getheaders" {
+						asked = true
+					}
+				}
+				if !asked {
+					return "c06-sync-peer-announcement-not-followed-up",
+						fmt.Sprintf("the sync peer (node %d) announced block #%d by inv; the table does not hold it and nothing was requested from the node afterwards", f.ID, e.Idx[len(e.Idx)-1])
+				}
+			}
+		}
+	}
+	if s.Engine == "legacy" {
 		// F4d (repaired in /repo 0b0b1e1; kept for the same reason): handleCheckSyncPeer compared topBlock() != tip height; once the service is AHEAD of the height its sync
 		// peer advertised in its version message (blocks announced since), the three-minute watchdog takes that for
 		// "behind", disconnects the up-to-date sync peer, and later announcements of that peer are lost.
@@ -453,6 +487,75 @@ func classifyC06(r *rig, res *scnResult, fs []nodeFinal, best *nodeFinal, t *tre
 		}
 	}
 	return "c06-other:" + scnKind(s), "unclassified"
+}
+
+
+// overlappingRequestsEndShort (finding C06-F5): the best honest node announced a block by inv while a sync getheaders to
+// it was still unanswered; the inv added a second outstanding request to the same node (two request chains overlap).
+// Afterwards every request was answered, and the LAST answers of the node consisted only of headers the table already
+// held (a reply without a longest-chain header ends the requests: C06_no_lc_header_stops), nothing was requested after
+// them, and the table ends as a proper prefix of that node's chain.
+func overlappingRequestsEndShort(r *rig, res *scnResult, best *nodeFinal, t *tree) (bool, string) {
+	if best == nil || best.TipIdx < 0 {
+		return false, ""
+	}
+	h := best.Hist
+	// (1) an inv sent while a request was outstanding, followed by one more request before the next answer
+	outstanding, overlapAt := 0, -1
+	for k, e := range h {
+		switch {
+		case !e.Sent && e.Kind == "getheaders":
+			outstanding++
+			if overlapAt == -2 && outstanding >= 2 {
+				overlapAt = k
+			}
+		case e.Sent && e.Kind == "headers":
+			if outstanding > 0 {
+				outstanding--
+			}
+			if overlapAt == -2 {
+				overlapAt = -1
+			}
+		case e.Sent && e.Kind == "inv" && len(e.Idx) > 0:
+			if overlapAt == -1 && outstanding >= 1 {
+				overlapAt = -2 // armed: the next event must be a request
+			}
+		}
+	}
+	if overlapAt < 0 || outstanding != 0 {
+		return false, ""
+	}
+	// (2) the last answer is non-empty, known-only, and nothing was requested after it
+	last := -1
+	for k, e := range h {
+		if e.Sent && e.Kind == "headers" {
+			last = k
+		}
+	}
+	if last < overlapAt || len(h[last].Idx) == 0 {
+		return false, ""
+	}
+	for _, idx := range h[last].Idx {
+		if _, ok := t.by[r.tree.disp[idx]]; !ok {
+			return false, ""
+		}
+	}
+	for _, e := range h[last+1:] {
+		if !e.Sent && e.Kind == "getheaders" {
+			return false, ""
+		}
+	}
+	// (3) the table's tip is on the node's chain, strictly below its tip
+	tipIdx, ok := r.tree.byHashDisp(res.TipHash)
+	if !ok {
+		return false, ""
+	}
+	path := r.tree.pathTo(best.TipIdx)
+	th := r.tree.height[tipIdx]
+	if th >= len(path) || path[th-1] != tipIdx {
+		return false, ""
+	}
+	return true, fmt.Sprintf("node %d announced a block by inv while a sync request to it was unanswered: two request chains to the same node overlapped, its last answer (headers %s) held only headers the table already had, nothing more was requested; the table ends at height %d of the node's %d headers", best.ID, compactInts(h[last].Idx), th, len(path))
 }
 
 // sentHeadersAfterRequest: the node answered a getheaders with a non-empty headers message.
@@ -713,6 +816,98 @@ func genReaders(rng *rand.Rand, engine string) *scn {
 	return s
 }
 
+
+// genSameBlock: steady state with 2..4 nodes synced to the common tip; ONE new block is announced by inv by several of
+// them. The first announcers are NOT the sync peer and do not deliver: they stall (service "current": their inv is
+// honoured with a getheaders they never answer), or their inv is ignored by design (service not "current": the last
+// checkpoint lies above the tip); sometimes a first announcer is healthy and delivers. Afterwards the sync peer — honest,
+// conformant, answering — announces the very same block: it must be asked and the block stored.
+func genSameBlock(rng *rand.Rand, o genOpts) *scn {
+	L := 4 + rng.Intn(minInt(o.MaxLen, 14)-3)
+	n := 2 + rng.Intn(3)
+	s := &scn{Engine: "legacy", Sched: "serial", Seed: rng.Int63n(1 << 30), Salt: rng.Uint32(), Parents: linearParents(L + 1)}
+	s.Bits = make([]uint32, L+1)
+	for i := range s.Bits {
+		s.Bits[i] = defaultBits
+	}
+	current := rng.Intn(2) == 0
+	if current {
+		s.Cps = []int{rng.Intn(L)} // the last checkpoint is at or below the common tip
+	} else {
+		s.Cps = []int{L} // the new block itself is the last checkpoint: below it the service is not current
+	}
+	for i := 0; i < n; i++ {
+		s.Nodes = append(s.Nodes, scnNode{Path: seq(0, L+1), Pos: L, Cap: 2000, Dir: "out", Honest: true, CloseAt: -1, StallAt: -1})
+		if rng.Intn(4) == 0 {
+			s.Nodes[i].Dir = "in"
+		}
+	}
+	sp := rng.Intn(n) // connected first and alone: the sync peer
+	s.Steps = append(s.Steps, scnStep{Kind: "connect", Node: sp}, scnStep{Kind: "run"})
+	var others []int
+	for _, i := range rng.Perm(n) {
+		if i != sp {
+			others = append(others, i)
+			s.Steps = append(s.Steps, scnStep{Kind: "connect", Node: i})
+		}
+	}
+	s.Steps = append(s.Steps, scnStep{Kind: "run"})
+	first := 1 + rng.Intn(len(others))
+	for _, i := range others[:first] {
+		if current && rng.Intn(3) != 0 {
+			s.Nodes[i].Honest = false // it never answers: not a peer the service can converge on
+			s.Steps = append(s.Steps, scnStep{Kind: "stall", Node: i})
+		}
+		s.Steps = append(s.Steps, scnStep{Kind: "announce", Node: i, How: "inv", N: 1}, scnStep{Kind: "run"})
+	}
+	s.Steps = append(s.Steps, scnStep{Kind: "announce", Node: sp, How: "inv", N: 1}, scnStep{Kind: "run"})
+	for _, i := range others[first:] {
+		if rng.Intn(2) == 0 {
+			s.Steps = append(s.Steps, scnStep{Kind: "announce", Node: i, How: "inv", N: 1}, scnStep{Kind: "run"})
+		}
+	}
+	timePasses(s)
+	return s
+}
+
+
+// genMidSyncInv: ONE honest node; in the middle of the initial sync (after 0..3 answers, a request outstanding) the node
+// announces a new block by inv. Caps 1..10, with several checkpoints ahead or only the last one.
+func genMidSyncInv(rng *rand.Rand) *scn {
+	L := 10 + rng.Intn(22)
+	s := &scn{Engine: "legacy", Sched: "serial", Seed: rng.Int63n(1 << 30), Salt: rng.Uint32(), Parents: linearParents(L + 1)}
+	s.Bits = make([]uint32, L+1)
+	for i := range s.Bits {
+		s.Bits[i] = defaultBits
+	}
+	cap := 1 + rng.Intn(10)
+	serves := rng.Intn(4)
+	if rng.Intn(3) == 0 {
+		s.Init = seq(0, 1+rng.Intn(L/3))
+	}
+	switch rng.Intn(4) {
+	case 0:
+		s.Cps = []int{L - 1}
+	case 1:
+		s.Cps = pickCheckpoints(rng, L, 1)
+	default:
+		// three checkpoints in a row right above what is stored when the announcement arrives
+		base := len(s.Init) + serves*cap
+		if base > L-5 {
+			base = L - 5
+		}
+		s.Cps = []int{base + 1, base + 2, base + 3}
+	}
+	s.Nodes = append(s.Nodes, scnNode{Path: seq(0, L+1), Pos: L, Cap: cap, Dir: "out", Honest: true, CloseAt: -1, StallAt: -1})
+	s.Steps = append(s.Steps, scnStep{Kind: "connect", Node: 0})
+	for k := serves; k > 0; k-- {
+		s.Steps = append(s.Steps, scnStep{Kind: "serve", Node: 0})
+	}
+	s.Steps = append(s.Steps, scnStep{Kind: "announce", Node: 0, How: "inv", N: 1}, scnStep{Kind: "run"})
+	timePasses(s)
+	return s
+}
+
 func timePasses(s *scn) {
 	if s.Engine == "legacy" {
 		s.Steps = append(s.Steps, scnStep{Kind: "tick", N: 200}, scnStep{Kind: "run"})
@@ -876,7 +1071,7 @@ func reportScn(c *Ctx, res *scnResult, rigErrs *int) {
 }
 
 func runC06(c *Ctx) error {
-	c.R.Rule = "scenario = block tree (linear or forked, 5..60 headers quick / up to thousands thorough) x 1..3 scripted conformant nodes (full, lagging, other branch; cap 1/2/7/2000; inbound or outbound; close/stall at a message index) x engine {legacy, experimental} x checkpoints {disabled, one, several, last at tip, none(exp)} x initial store {genesis, prefix, prefix+stale fork, lighter branch} x announcements {inv, one inv carrying announced + new blocks and tx entries, headers; one or several nodes} x a handful of syncs of 300..1200 headers (several replies) while background goroutines read the store (tip, locator, GET /api/v1/chain/tip/longest) x scheduling {serial with per-event trace comparison against the Lean model, free-running goroutines with seeded delays}; non-trivial = more than one request round or more than one peer or an announcement / peer loss; accepted (counted, not failed) per the property's proviso: the best peer's last, cap-limited answer brought only known headers, nothing was requested from it afterwards and it has not announced since"
+	c.R.Rule = "scenario = block tree (linear or forked, 5..60 headers quick / up to thousands thorough) x 1..3 scripted conformant nodes (full, lagging, other branch; cap 1/2/7/2000; inbound or outbound; close/stall at a message index) x engine {legacy, experimental} x checkpoints {disabled, one, several, last at tip, none(exp)} x initial store {genesis, prefix, prefix+stale fork, lighter branch} x an inv announcement by the sync peer at a random point of the initial sync (caps 1..10, with and without checkpoints ahead: finding C06-F5) x the SAME new block announced by inv by 2..4 nodes in steady state, first by non-sync nodes that stall or are ignored (service not current), then by the sync peer x announcements {inv, one inv carrying announced + new blocks and tx entries, headers; one or several nodes} x a handful of syncs of 300..1200 headers (several replies) while background goroutines read the store (tip, locator, GET /api/v1/chain/tip/longest) x scheduling {serial with per-event trace comparison against the Lean model, free-running goroutines with seeded delays}; non-trivial = more than one request round or more than one peer or an announcement / peer loss; accepted (counted, not failed) per the property's proviso: the best peer's last, cap-limited answer brought only known headers, nothing was requested from it afterwards and it has not announced since"
 	l := newSyncModel(c)
 	defer l.Close()
 	if c.Replay != "" {
@@ -936,6 +1131,40 @@ func runC06(c *Ctx) error {
 		}
 		reportScn(c, res, &corpusErrs)
 		c.R.Count("kind:concurrent-reads", 1)
+	}
+	// the same new block announced by several nodes (own random stream: the main stream's scenarios stay what they were)
+	srng := lib.Rng(c.Seed, "c06-same-block")
+	nSame := 36
+	if c.Thorough {
+		nSame = 400
+	}
+	for i := 0; i < nSame; i++ {
+		s := genSameBlock(srng, genOpts{MaxLen: 40})
+		name := fmt.Sprintf("same-block-legacy-%d", i)
+		res := runScenario(name, s, oracleC06)
+		if res.Err != nil {
+			res = runScenario(name+"-retry", s, oracleC06)
+		}
+		reportScn(c, res, &corpusErrs)
+		l.check(c, res)
+		c.R.Count("kind:same-block", 1)
+	}
+	// an announcement by the sync peer in the middle of the initial sync (finding C06-F5; own random stream)
+	mrng0 := lib.Rng(c.Seed, "c06-midsync-inv")
+	nMid := 24
+	if c.Thorough {
+		nMid = 300
+	}
+	for i := 0; i < nMid; i++ {
+		s := genMidSyncInv(mrng0)
+		name := fmt.Sprintf("midsync-inv-legacy-%d", i)
+		res := runScenario(name, s, oracleC06)
+		if res.Err != nil {
+			res = runScenario(name+"-retry", s, oracleC06)
+		}
+		reportScn(c, res, &corpusErrs)
+		l.check(c, res)
+		c.R.Count("kind:midsync-inv", 1)
 	}
 	rng := lib.Rng(c.Seed, "c06-scenarios")
 	o := genOpts{MaxLen: 40}
@@ -1026,7 +1255,8 @@ func runC06(c *Ctx) error {
 	return nil
 }
 
-// c06Corpus: witnesses of defects this check found and /repo has repaired (KNOWN_FINDINGS `fixed` entries).
+// c06Corpus: witnesses of defects this check found and /repo has repaired (KNOWN_FINDINGS `fixed` entries), and fixed
+// scenarios of shapes the random generators hit rarely (the same block announced by several nodes).
 var c06Corpus = []struct {
 	Name string
 	Ops  []string
@@ -1039,6 +1269,23 @@ var c06Corpus = []struct {
 	{"F4d-0b0b1e1", []string{"c06 engine=legacy cpoff=0 cps=2 init= forbid= sched=serial seed=1 salt=4", "tree parents=0~6",
 		"node path=0..6 pos=5 cap=2000 dir=out honest=1", "step connect 0", "step announce 0 inv 1", "step run", "step tick 200",
 		"step run", "step announce 0 inv 1", "step run"}},
+	// the same new block (#5) announced by inv by two nodes. Node 1 is not the sync peer and stalls: its inv is honoured
+	// (the service is current) with a getheaders it never answers; then the sync peer node 0 announces the same block
+	{"same-block-stalling-peer-first", []string{"c06 engine=legacy cpoff=0 cps=2 init= forbid= sched=serial seed=1 salt=31", "tree parents=0~5",
+		"node path=0..5 pos=5 cap=2000 dir=out honest=1", "node path=0..5 pos=5 cap=2000 dir=out honest=0",
+		"step connect 0", "step run", "step connect 1", "step run", "step stall 1", "step announce 1 inv 1", "step run",
+		"step announce 0 inv 1", "step run"}},
+	// … the service is NOT current (the new block is the last checkpoint): the inv of the healthy non-sync node 1 is
+	// ignored by design, then the sync peer announces the same block
+	{"same-block-ignored-peer-first", []string{"c06 engine=legacy cpoff=0 cps=5 init= forbid= sched=serial seed=1 salt=37", "tree parents=0~5",
+		"node path=0..5 pos=5 cap=2000 dir=out honest=1", "node path=0..5 pos=5 cap=2000 dir=out honest=1",
+		"step connect 0", "step run", "step connect 1", "step run", "step announce 1 inv 1", "step run",
+		"step announce 0 inv 1", "step run"}},
+	// … three announcers, the sync peer (node 2) last
+	{"same-block-three-announcers", []string{"c06 engine=legacy cpoff=0 cps=6 init= forbid= sched=serial seed=1 salt=41", "tree parents=0~6",
+		"node path=0..6 pos=6 cap=2000 dir=out honest=1", "node path=0..6 pos=6 cap=2000 dir=in honest=1", "node path=0..6 pos=6 cap=2000 dir=out honest=1",
+		"step connect 2", "step run", "step connect 0", "step connect 1", "step run", "step announce 1 inv 1", "step run",
+		"step announce 0 inv 1", "step run", "step announce 2 inv 1", "step run"}},
 }
 
 // replayKnownC06 replays the witnesses of the property's known findings.
